@@ -1,6 +1,6 @@
 """C17 — in_subprocess: observable facts of real runs (own short-lived process per scenario, hard watchdog) vs. the
 prediction of the Lean protocol model for the same abstract scenario."""
-import json, os, signal, subprocess, sys, tempfile, shutil, time, itertools
+import json, os, select, signal, subprocess, sys, tempfile, shutil, time, itertools
 from concurrent.futures import ThreadPoolExecutor
 
 RULE = ('scenario = tasks run with asyncio (concurrently), each task a sequence of awaited invocations (fd numbers are re-used); per '
@@ -10,8 +10,12 @@ RULE = ('scenario = tasks run with asyncio (concurrently), each task a sequence 
         'same callee directly —, callee whose process lingers 1.5 s (thorough: also 3 s) after it has reported (non-daemon thread), returning or raising}, '
         'child processes counted right after every single await (/proc, nothing reaped by the observer), sync or async callee, '
         '@in_subprocess or calculate_in_subprocess, quantised durations covering every completion order of up to 3 (quick) / 4 '
-        '(thorough) concurrent invocations; enumerated families + seeded random mixes; every scenario in its own process, '
-        'watchdog 4.5 s per scenario (HANG), process group killed afterwards.  non-trivial = more than one invocation or a callee '
+        '(thorough) concurrent invocations; WIDE scenarios: cpu_count+1, cpu_count+2, 2*cpu_count+3 (thorough: 4*cpu_count+1) concurrent cheap '
+        'invocations — more than any per-core limit lets run at once —, through ONE decorated function per callee kind (a module-level '
+        '@in_subprocess def) and through calculate_in_subprocess; SEVERAL EVENT LOOPS one after the other in the same interpreter (2-4 '
+        'asyncio.run rounds per scenario, wide and small, mixed callee kinds, fd numbers and decorated functions re-used from loop to loop): '
+        'every invocation of every round must get its own result; enumerated families + seeded random mixes (with rounds); every scenario in its own process, '
+        'watchdog 4.5 s per event loop (HANG), process group killed afterwards.  non-trivial = more than one invocation or a callee '
         'that does not simply return')
 EXHAUSTIVE = {'quick': False, 'thorough': False}
 ASSUMPTIONS = [
@@ -27,6 +31,12 @@ ASSUMPTIONS = [
     'In scenarios with a lingering callee the clause is judged on the longest gap between two runs of a 10 ms ticker task (no discount): a gap of at least '
     'half the shortest linger time is a stall',
     'a callee that starts processes is compared for the value it returns; the grandchild processes themselves (children of the child) are outside the model',
+    'several event loops in one interpreter are modelled as G.newLoop (a new empty selector map, the finished invocations stay); that the module keeps nothing '
+    'else from one invocation / one loop to the next is read off the source by the translator (Gen/SubprocModule.lean: module-level bindings, context managers, '
+    'synchronisation primitives, stores through non-locals) and proved empty (no_state_between_invocations); state kept elsewhere (inside multiprocess, asyncio) is environment',
+    'the per-invocation ticker criterion (>= 10 % of the 10 ms ticks during its wall time) is applied in event loops with at most 8 concurrent chains; in the wide '
+    'scenarios (more invocations than cores) the loop is busy with the synchronous statements of the other invocations (fork, recv, join) and progress of other '
+    'tasks is witnessed by those invocations completing — HANG, outcome, pid and resource clauses are judged for every invocation of every scenario',
 ]
 TRUSTED = [
     'kernel pipe semantics (a read end reports EOF iff no write end is open; data written to one pipe is read from that pipe only) and waitpid',
@@ -37,6 +47,7 @@ Q = 0.1            # seconds per duration quantum
 WATCHDOG = 4.5     # s: invocations still pending after this are HANG
 HARD = 9.0         # s: the scenario process itself is killed after this
 WORKERS = 12
+TICKER_MAX_CHAINS = 8
 
 RUNNER = r'''
 import asyncio, gc, json, os, signal, sys, time, threading, fcntl, termios, struct
@@ -176,6 +187,22 @@ def make(spec):
     return callee
 
 
+SHARED = {}
+
+
+def target(spec):
+    """what an invocation awaits: `in_subprocess(f)` / `calculate_in_subprocess` + f.  spec['share']: the function is decorated ONCE (as a
+    module-level `@in_subprocess def work` is) and that one wrapper serves every invocation with the same callee — in every event loop"""
+    if not spec.get('share'):
+        f = make(spec)
+        return in_subprocess(f) if spec['form'] == 'deco' else (lambda *a, **k: calculate_in_subprocess(f, *a, **k))
+    key = json.dumps([spec[k] for k in ('callee', 'dur', 'size', 'async', 'form')] + [spec.get(k) for k in ('exc', 'base', 'linger')])
+    if key not in SHARED:
+        f = make(spec)
+        SHARED[key] = in_subprocess(f) if spec['form'] == 'deco' else (lambda *a, **k: calculate_in_subprocess(f, *a, **k))
+    return SHARED[key]
+
+
 def children():
     """direct children of this process, any state, read from /proc without reaping anything"""
     out = []
@@ -240,16 +267,23 @@ def direct_calls():
     return out
 
 
-async def main():
+ROUNDS = SC.get('rounds') or [SC['tasks']]       # one event loop (asyncio.run) per round, one after the other
+N = len(SC['invs'])
+res = [None] * N
+ticks = [0]
+order = []
+stall = [0.0]
+errors = []
+BASE = {}
+AT_END = {'conns': 0, 'sel': 0, 'kids': 0}
+
+
+async def main(rno, chains):
     loop = asyncio.get_running_loop()
     gc.collect()
-    base = {'fds': nfds(), 'children': len(children()), 'conns': open_conns(), 'sel': len(loop._selector.get_map())}
-    n = len(SC['invs'])
-    res = [None] * n
-    ticks = [0]
-    order = []
-    stall = [0.0]
-
+    if rno == 0:
+        BASE.update({'fds': nfds(), 'children': len(children()), 'conns': open_conns()})
+    base_sel = len(loop._selector.get_map())
     last = [time.monotonic()]
 
     async def ticker():
@@ -264,19 +298,16 @@ async def main():
         """child processes of this process (running or zombie) beyond the ones the other invocations that are pending right now can account
         for (one each, at most) — counted right after invocation i handed over its result, before anything else runs"""
         others = sum(1 for j, r in enumerate(res) if j != i and r is not None and r['state'] == 'pending')
-        return max(0, len(children()) - base['children'] - others)
+        return max(0, len(children()) - BASE['children'] - others)
 
     async def chain(ids):
         for i in ids:
             spec = SC['invs'][i]
-            f = make(spec)
+            call = target(spec)
             t0, k0 = time.monotonic(), ticks[0]
             res[i] = {'state': 'pending'}
             try:
-                if spec['form'] == 'deco':
-                    r = await in_subprocess(f)(i, tag='t%d' % i)
-                else:
-                    r = await calculate_in_subprocess(f, i, tag='t%d' % i)
+                r = await call(i, tag='t%d' % i)
                 kind, val = 'ret', r
             except asyncio.CancelledError:
                 raise
@@ -296,17 +327,21 @@ async def main():
             time.sleep(0.005)
 
     tk = asyncio.ensure_future(ticker())
-    tasks = [asyncio.ensure_future(chain(ids)) for ids in SC['tasks']]
-    if SC.get('blocker'):
+    tasks = [asyncio.ensure_future(chain(ids)) for ids in chains]
+    if SC.get('blocker') and rno == 0:
         tasks.append(asyncio.ensure_future(blocker(SC['blocker'])))
-    done, pending = await asyncio.wait(tasks, timeout=WATCHDOG)
-    errors = [repr(t.exception()) for t in done if t.exception() is not None]
+    done, pending = await asyncio.wait(tasks, timeout=WATCHDOG)      # per event loop
+    errors.extend(repr(t.exception()) for t in done if t.exception() is not None)
     stall[0] = max(stall[0], time.monotonic() - last[0])
     tk.cancel()
-    conns_at_completion = open_conns() - base['conns']
-    sel_at_completion = len(loop._selector.get_map()) - base['sel']
-    kids_at_completion = len(children()) - base['children']
+    AT_END['conns'] = max(AT_END['conns'], open_conns() - BASE['conns'])
+    AT_END['sel'] = max(AT_END['sel'], len(loop._selector.get_map()) - base_sel)
+    AT_END['kids'] = max(AT_END['kids'], len(children()) - BASE['children'])
     hang = bool(pending)
+    if not hang and rno + 1 < len(ROUNDS):
+        sys.stdout.write(json.dumps({'round_done': rno}) + '\n')      # heartbeat: the observer's hard limit starts anew
+        sys.stdout.flush()
+        return              # this event loop ends here (asyncio.run closes it); the next round gets a new one
     outs, pids, walls, tks, lefts = [], [], [], [], []
     for r in res:
         if r is None:
@@ -322,18 +357,19 @@ async def main():
                 r.pop('val', None)
         del done, pending, tasks, r
         gc.collect()
-        fd_after = nfds() - base['fds']
+        fd_after = nfds() - BASE['fds']
     rep = {'out': outs, 'pid_differs': [None if p is None else (p != PARENT) for p in pids], 'wall': walls, 'ticks': tks,
-           'order': order, 'hang': hang, 'fd_delta': fd_after, 'children_left': kids_at_completion,
-           'open_conns': conns_at_completion, 'selector_delta': sel_at_completion, 'errors': errors,
-           'left_after_await': lefts, 'direct': DIRECT, 'stall': round(stall[0], 3)}
+           'order': order, 'hang': hang, 'fd_delta': fd_after, 'children_left': AT_END['kids'],
+           'open_conns': AT_END['conns'], 'selector_delta': AT_END['sel'], 'errors': errors,
+           'left_after_await': lefts, 'direct': DIRECT, 'stall': round(stall[0], 3), 'rounds_run': rno + 1}
     sys.stdout.write(json.dumps(rep) + '\n')
     sys.stdout.flush()
     os._exit(0)
 
 
 DIRECT = direct_calls()
-asyncio.run(main())
+for _rno, _chains in enumerate(ROUNDS):
+    asyncio.run(main(_rno, _chains))
 '''
 
 
@@ -355,24 +391,51 @@ def inv(callee, dur=1, size=16, big=None, is_async=False, form='deco', exc='Valu
     return d
 
 
-def scenario(tasks, origin=''):
-    """tasks: list of lists of inv dicts -> case"""
-    invs, tl = [], []
-    for t in tasks:
-        ids = []
-        for k, s in enumerate(t):
-            s = dict(s)
-            s['pred'] = ids[-1] if ids else None
-            ids.append(len(invs))
-            invs.append(s)
-        tl.append(ids)
+def scenario(tasks, origin='', rounds=None):
+    """tasks: list of lists of inv dicts (the chains of awaited invocations that run concurrently) -> case.
+    rounds: list of such task lists — one event loop (`asyncio.run`) per round, one after the other in the same interpreter"""
+    invs, tl, rl, sizes = [], [], [], []
+    for rtasks in (rounds if rounds is not None else [tasks]):
+        n0, chains = len(invs), []
+        for t in rtasks:
+            ids = []
+            for k, s in enumerate(t):
+                s = dict(s)
+                s['pred'] = ids[-1] if ids else None
+                ids.append(len(invs))
+                invs.append(s)
+            tl.append(ids)
+            chains.append(ids)
+        rl.append(chains)
+        sizes.append(len(invs) - n0)
     c = {'invs': [{'callee': s['callee'], 'big': s['big'], 'dur': s['dur'], 'pred': s['pred']} for s in invs]}
     x = {'invs': invs, 'tasks': tl, 'origin': origin}
-    firsts = [invs[ids[0]] for ids in tl if ids]
+    if rounds is not None and len(rl) > 1:
+        c['rounds'] = sizes
+        x['rounds'] = rl
+    firsts = [invs[ids[0]] for ids in rl[0] if ids]
     nmid = sum(1 for s in firsts if s['callee'][0] == 'midsend')
     if nmid:
         x['blocker'] = nmid
     return {'m': 'subproc', 'c': c, 'x': x}
+
+
+def shared(d):
+    """the same invocation made through ONE decorated function that serves all invocations of its kind (module-level `@in_subprocess def`)"""
+    return dict(d, share=True)
+
+
+CPUS = os.cpu_count() or 1
+
+
+def wide(n, kinds=None, form='deco', is_async=False, dur=1, share=True):
+    """n concurrent cheap invocations (one task each); kinds: callee kinds taken in turn"""
+    kinds = kinds or [['ret']]
+    out = []
+    for i in range(n):
+        d = inv(kinds[i % len(kinds)], dur=dur if isinstance(dur, int) else dur[i % len(dur)], size=16, is_async=is_async, form=form)
+        out.append([shared(d) if share else d])
+    return out
 
 
 DEATHS = [['death', 'beforeRun'], ['death', 'osExit'], ['death', 'signal'], ['base'], ['unpicklable']]
@@ -454,7 +517,38 @@ def cases(rng, tier):
     # (d) wide: many concurrent invocations, all the same instant / staggered
     out.append(scenario([[inv(['ret'], dur=1, size=1 << 20)] for _ in range(4)], 'wide-big'))
     out.append(scenario([[inv(c, dur=1)] for c in DEATHS] + [[inv(['ret'], dur=1)]], 'wide-deaths'))
+    # (f) MORE concurrent invocations than the machine has cores (any limit on the number of simultaneously running children has to
+    #     make the surplus wait, not fail), and SEVERAL EVENT LOOPS one after the other in the same interpreter (`asyncio.run` per round:
+    #     two requests of a sync web worker, two test cases): every invocation of every round must get its own result.  The wide
+    #     scenarios go through ONE decorated function per callee kind (a module-level `@in_subprocess def`), as user code does.
+    big_n = 2 * CPUS + 3
+    out.append(scenario(None, 'wide-rounds', rounds=[wide(CPUS + 1), wide(CPUS + 1), wide(CPUS + 1)]))
+    out.append(scenario(None, 'wide-rounds', rounds=[wide(big_n, is_async=True, dur=[1, 0, 2]), wide(big_n, is_async=True, dur=[0, 1])]))
+    out.append(scenario(None, 'wide-rounds-mixed', rounds=[wide(CPUS + 2, kinds=[['ret'], ['exc'], ['death', 'osExit']], form='func', share=False, dur=[0, 1, 2]),
+                                                          wide(CPUS + 2, kinds=[['exc'], ['ret'], ['base'], ['ret']], form='func', share=False, dur=[1, 0])]))
+    out.append(scenario(wide(big_n, kinds=[['ret'], ['ret'], ['exc']], dur=[1, 2]), 'wide'))
+    out.append(scenario(None, 'rounds', rounds=[[[inv(['ret'], dur=1), inv(['ret'], dur=0)], [inv(['exc'], dur=1, is_async=True)]],
+                                                [[inv(['death', 'signal'], dur=0), inv(['ret'], dur=1, form='func')]],
+                                                [[inv(['ret'], dur=1, size=1 << 20)], [shared(inv(['ret'], dur=0))], [inv(['base'], dur=1)]],
+                                                [[shared(inv(['ret'], dur=0))]]]))
+    out.append(scenario(None, 'rounds', rounds=[[[shared(inv(['ret'], dur=1, form=f))]] for f in ('deco', 'func', 'deco')]))
+    if thorough:
+        out.append(scenario(None, 'wide-rounds', rounds=[wide(big_n, form='func')] * 3))
+        out.append(scenario(None, 'wide-rounds', rounds=[wide(CPUS + 1, form='func', share=False, dur=[0, 1])] * 4))
+        out.append(scenario(None, 'wide-rounds', rounds=[wide(3), wide(CPUS + 1), wide(2), wide(CPUS + 4, kinds=[['ret'], ['death', 'beforeRun']])]))
+        out.append(scenario(None, 'wide-rounds-spawn', rounds=[wide(CPUS + 1, kinds=[['spawn', 'func'], ['spawn', 'deco']], is_async=True)] * 2))
+        out.append(scenario(wide(CPUS + 1, kinds=[['spawn', 'process'], ['ret']]), 'wide-spawn'))
+        out.append(scenario(wide(4 * CPUS + 1, dur=[0, 1, 2, 3]), 'wide'))
+        for k in range(40):
+            nr = rng.randint(2, 4)
+            out.append(scenario(None, 'random-rounds', rounds=[
+                [[rand_inv(rng, maxdur=2) | ({'share': True} if rng.random() < 0.5 else {}) for _ in range(1 if rng.random() < 0.7 else 2)]
+                 for _ in range(rng.choice([1, 2, 3, CPUS + 1] if k % 8 == 0 else [1, 2, 3]))] for _ in range(nr)]))
     nmax = 8 if thorough else 6
+    for k in range(0 if thorough else 4):
+        out.append(scenario(None, 'random-rounds', rounds=[
+            [[rand_inv(rng, maxdur=2) | ({'share': True} if rng.random() < 0.5 else {}) for _ in range(1 if rng.random() < 0.7 else 2)]
+             for _ in range(rng.randint(1, 3))] for _ in range(rng.randint(2, 3))]))
     # (e) seeded mixes
     for k in range(420 if thorough else 17):
         nt = rng.randint(1, nmax)
@@ -492,6 +586,12 @@ def search(rng, tier, near):
         out.append(scenario([[inv(c, dur=1)]], 'search'))
     out.append(scenario([[inv(['linger', 'ret'], dur=0, linger=LINGER_T)]], 'search'))
     out.append(scenario([[inv(['linger', 'exc'], dur=0, linger=LINGER_Q, is_async=True)]], 'search'))
+    # state kept between invocations / between event loops: many at once, loop after loop, through one decorated function and through
+    # calculate_in_subprocess
+    for n in (2, CPUS + 1, 2 * CPUS + 3, 4 * CPUS + 1):
+        for form in ('deco', 'func'):
+            out.append(scenario(None, 'search', rounds=[wide(n, form=form)] * 3))
+    out.append(scenario(None, 'search', rounds=[[[shared(inv(['ret'], dur=0))]]] * 6))
     for _ in range(12):
         out.append(scenario([[rand_inv(rng) for _ in range(rng.randint(1, 3))] for _ in range(rng.randint(1, 3))], 'search'))
     return out
@@ -501,17 +601,27 @@ def search(rng, tier, near):
 
 def run_one(runner, case, env):
     x = case['x']
-    sc = {'invs': x['invs'], 'tasks': x['tasks'], 'blocker': x.get('blocker', 0), 'q': Q, 'watchdog': WATCHDOG}
+    sc = {'invs': x['invs'], 'tasks': x['tasks'], 'rounds': x.get('rounds'), 'blocker': x.get('blocker', 0), 'q': Q, 'watchdog': WATCHDOG}
     t0 = time.time()
     dbg = os.environ.get('C17_DEBUG')
     p = subprocess.Popen([sys.executable, '-B', runner, json.dumps(sc)], stdout=subprocess.PIPE,
                          stderr=(None if dbg else subprocess.DEVNULL), stdin=subprocess.DEVNULL, env=env, start_new_session=True)
+    out, timed_out = b'', False
     try:
-        out, _ = p.communicate(timeout=HARD)
-        timed_out = False
-    except subprocess.TimeoutExpired:
-        timed_out = True
-        out = b''
+        # the hard limit is per event loop: the runner writes a line when a round has ended, the last line is its report
+        deadline = time.time() + HARD
+        while True:
+            ready, _, _ = select.select([p.stdout], [], [], max(0.0, deadline - time.time()))
+            if not ready:
+                timed_out = True
+                out = b''
+                break
+            chunk = os.read(p.stdout.fileno(), 1 << 16)
+            if not chunk:
+                break
+            out += chunk
+            if b'\n' in chunk:
+                deadline = time.time() + HARD
     finally:
         try:
             os.killpg(p.pid, signal.SIGKILL)      # the scenario's process group: stragglers of a hung invocation
@@ -535,9 +645,13 @@ def run_one(runner, case, env):
     outs = [['hang'] if o[0] in ('hang', 'notrun') else o for o in r['out']]
     tick_bad = []
     lingers = [s['linger'] for s in x['invs'] if 'linger' in s]
+    # the 10 ms ticker is judged for invocations made in an event loop with at most TICKER_MAX_CHAINS concurrent chains: with dozens at
+    # once the loop legitimately spends its time in the synchronous statements of the OTHER invocations (fork inside Process.start(), recv,
+    # join of a child that has just sent) — there "other tasks run" is witnessed by those invocations completing
+    crowded = {i for rd in (x.get('rounds') or [x['tasks']]) if len(rd) > TICKER_MAX_CHAINS for ids in rd for i in ids}
     if not x.get('blocker'):
         for i, (w, k) in enumerate(zip(r['wall'], r['ticks'])):
-            if r['out'][i][0] not in ('hang', 'notrun') and w >= 0.15 and k < max(2, int(w / 0.01 * 0.1)):
+            if i not in crowded and r['out'][i][0] not in ('hang', 'notrun') and w >= 0.15 and k < max(2, int(w / 0.01 * 0.1)):
                 tick_bad.append([i, w, k])
     released = None
     if not r['hang']:
@@ -633,7 +747,9 @@ def judge(case, impl, model):
     paths = sorted(set(m.get('path', [])))
     return {'corr': corr, 'pfail': pfail, 'finding': finding,
             'nontrivial': n > 1 or x['invs'][0]['callee'][0] != 'ret',
-            'tag': f"n={n}{'/seq' if seq else ''}/{'+'.join(kinds)}/{'+'.join(paths)}", 'why': '; '.join(why)}
+            'tag': f"n={n}{'/seq' if seq else ''}{'/loops=%d' % len(x['rounds']) if x.get('rounds') else ''}"
+                   f"{'/wide' if any(len(r) > CPUS for r in (x.get('rounds') or [x['tasks']])) else ''}/{'+'.join(kinds)}/{'+'.join(paths)}",
+            'why': '; '.join(why)}
 
 
 def extra_coverage(results):
